@@ -12,6 +12,7 @@
 (*   xmlnum : 0, 1, -1, +1, 2^31-1, 2^32-1, 2^32, 2^64, "-1", "", "abc"    *)
 (*   xmlref : A0, XFE1, A1048577, A, 1, ZZZZZZZZZZ1, "A1:", A99999999999, "",*)
 (*            C9:A1, A9:C1 (a range whose end lies before its start)          *)
+(*            A1:Z100000, B2:B9000000 (valid, declaring millions of cells)   *)
 (*   part   : truncate at 0, 1, 1/4, 1/2, len-1; drop the part             *)
 (*   reccut : one BIFF record truncated to its first k payload bytes,       *)
 (*            k = 0..47 (a record ending inside any of its header fields)   *)
